@@ -15,6 +15,10 @@ HCOBS_RULE = "exhaustive: every string over {FE, FD, 00} up to length 6 (quick) 
 HCOBS_NOTE = "Trusted: Coq kernel; the hand-written sink-level encoder model and decoder model (tied by correspondence, including per-call (cur, mid, max) through hook verif_hooks); OwningIovec as an abstract cell sequence with placeholders (its own correctness is C03/C04); translator for RADIX / STUFF_SEQUENCE / PROD_PARAMS."
 HCOBS_ASSUME = ["the four input methods are byte-equivalent at the sink (borrowed vs copied vs anchored memory is C05's concern)", "OwningIovec delivers appended bytes in order with backfilled placeholders (C03/C04)"]
 
+IOV_RULE = "random world histories of 6-50 operations over up to four OwningIovecs: push / push_copy / push_borrowed / extend / anchored push / register_patch (lengths 0,1,2,3,70) / backfill of a random pending slot / consume / advance_slices / pop_front / Read with counts {0,1,2,3,5,63,64,65,300,100000} / clear / arena flush, ensure_capacity, take, swap / clone / take / drop / new, slice sizes 1-4, 5-40, 60-70, 250-262, 300-3000, 4090-4100, followed by filling most pending placeholders and reading everything out; distinct = distinct case line; non-trivial = two placeholders pending in one object or two objects live at some point"
+IOV_NOTE = "Trusted: Coq kernel; the hand-written value-level model (bytes by value; where a push lands -- new slice or merged -- is taken from the implementation, and every theorem holds for all merge decisions); the backref table as a list of pending entries (SortedDeque is C16); hook verif_view reads private fields."
+IOV_ASSUME = ["fewer than 2^64 bytes and slices per history", "Backref handles are used with the iovec state they came from and not across clear() (DESIGN.md O3)"]
+
 PROPS = {
     "C14": {
         "families": ["win"],
@@ -115,5 +119,21 @@ PROPS = {
         "level_text": "Theorem C06_reader_spec (+ C06_valid_record_survives): for every chunk sequence that tiles a stream as C08 proves the chunker's does, successive calls of the faithful next_record_bytes model with the standard judge return exactly spec_records max limit stream (the maximal FE FD-free segments that are valid encodings of at most max bytes, with their exact ranges, stopping at the first segment starting at or after limit) and then None forever, without panicking. Composes C08 (tiling), the decoder exactness theorem (C07) and the record-level lemma (any cutting of a segment into Data pieces gives the whole-segment verdict).",
         "level_note": "Trusted: Coq kernel; the reader model over chunk sequences and the pump model (both tied by correspondence); the standard judge only (a custom judge answering SkipRecord on an empty range trips an assertion: DESIGN.md O2).",
         "assumptions": ["standard chunk_judge", "no hard I/O error from the reader"],
+    },
+    "C03": {
+        "families": ["iovw"],
+        "n": {"quick": {"iovw": 1200}, "thorough": {"iovw": 25000}},
+        "rule": IOV_RULE,
+        "level_text": "Theorems C03_push / C03_register / C03_backfill / C03_consume / C03_advance / C03_read / C03_total_size / C03_no_empty_slice / C03_reachable: the value-level faithful model of OwningIovec (slices of bytes with ghost placeholder marks, the backref table, the three counters) refines a FIFO of cells for every operation and every merge decision: pushes append their bytes, register_patch appends holes, backfill replaces exactly that placeholder's holes, consume / advance_slices / Read remove a prefix of bytes and report exactly what they removed, total_size = |buffer|, no slice is empty; the invariant (table and marks agree, ranges inside their slice, sorted, distinct ids) holds in every reachable state. Tied to the code by random world histories (all producer and consumer operations, arena flush/swap/reserve, clear, take, clone) with sizes around 64 / 256 / 4096, the merge decision of every push taken from the implementation, comparing every return value, total_size, len, slice lengths and all buffered bytes after every operation, debug and release.",
+        "level_note": IOV_NOTE,
+        "assumptions": IOV_ASSUME,
+    },
+    "C04": {
+        "families": ["iovw"],
+        "n": {"quick": {"iovw": 1200}, "thorough": {"iovw": 25000}},
+        "rule": IOV_RULE,
+        "level_text": "Theorems C04_holes_invisible / C04_observed_stable / C04_ok_iff_no_hole / C04_all_filled / C04_fill_any_order: in every reachable state of the Pipe model the consumable bytes are bytes only and a prefix of the buffer that stops before the first pending placeholder; producer steps (push, register, backfill) only extend the hole-free prefix, so an observable byte never changes; iovs/flatten/stable_consumer succeed iff no hole remains; once the table is empty every buffered byte is consumable; fills of different placeholders commute. Tied to the code as C03, with >= 2 placeholders in flight in a large share of cases and fills in random order; the check additionally verifies on the implementation's output that the exposed bytes are a prefix of the model's hole-free prefix.",
+        "level_note": IOV_NOTE,
+        "assumptions": IOV_ASSUME,
     },
 }
